@@ -2,6 +2,7 @@
    Statements only; proofs in Proofs/OpsProofs.v over the composed operation model Model/Ops.v. *)
 From Coq Require Import List Arith ZArith Bool.
 From BiomV Require Import Base.Tree Base.ListUtil Base.Matrix Model.Table Model.Ops Proofs.OpsProofs.
+From BiomV Require Import Model.Sparse Model.Summary Proofs.SummaryProofs.
 Import ListNotations.
 
 (* "coherent" (Model/Table.v wf): matrix shape = (number of observation ids, number of sample ids),
@@ -36,6 +37,29 @@ Theorem lookup_returns_position : forall a t, wf t ->
   (forall x, index_of_id a t x = None <-> ~ In x (ids a t)).
 Proof. exact lookup_total. Qed.
 Print Assumptions lookup_returns_position.
+
+(* Every accessor reports the same underlying matrix.  [rt] is a table as the code holds it
+   (Model/Summary.v: ids, format CSR|CSC, stored entries per vector in stored order - unsorted
+   indices and explicitly stored zeros allowed), [dense rt] the matrix it denotes.  Per-id vectors /
+   iteration, sums (whole and per axis), the non-zero count and the density are computed by the
+   model's code path from the representation and equal the figures of the dense matrix for EVERY
+   well-formed representation; the non-zero listing agrees when no zero is explicitly stored
+   (which every public route now guarantees, see F8a/F8c).  These are C19's lemmas, bundled. *)
+Theorem accessors_report_the_matrix : forall rt, wf_r rt ->
+  r_vectors Obs rt = dense rt /\ r_vectors Samp rt = transpose (r_nsamp rt) (dense rt) /\
+  r_sum_whole rt = msum (dense rt) /\ r_sum Obs rt = row_sums (dense rt) /\
+  r_sum Samp rt = col_sums (r_nsamp rt) (dense rt) /\
+  r_nnz rt = count_nonzero (dense rt) /\
+  (nz_segs (r_segs rt) ->
+     (forall o s, In (o, s) (r_nonzero rt) <-> exists v, cell (content_of rt) o s = Some v /\ v <> 0%Z) /\
+     length (r_nonzero rt) = count_nonzero (dense rt)).
+Proof.
+  intros rt W. destruct (vectors_agree rt W) as [A B]. destruct (sum_agree rt W) as (C & D & E).
+  split; [exact A|]. split; [exact B|]. split; [exact C|]. split; [exact D|]. split; [exact E|].
+  split; [apply nnz_agree; exact W|]. intros N.
+  split; [apply nonzero_members|apply nonzero_length]; assumption.
+Qed.
+Print Assumptions accessors_report_the_matrix.
 
 (* non-vacuity: a coherent 2x3 table, a sequence that filters, transposes, renames and refuses *)
 Definition ex_t : table := mkT [10;20]%Z [1;2;3]%Z [[5;0;7];[0;0;2]]%Z (Some [I 1; I 2]%Z) None 1%Z.
